@@ -30,6 +30,10 @@ import warnings
 
 from harness import core
 
+# the proof obligations of this check depend on Generated/EmitShape.lean only: do not let another area's extractor
+# (failing closed on a tree it does not understand) show up as a broken tie of C04
+os.environ.setdefault("VERIF_EXTRACT_ONLY", "emit_shape")
+
 PROP = "C04"
 LEAN_TARGETS = ["LoguruModel.Props.C04"]
 AUDIT_FILE = "LoguruModel/Audit/C04.lean"
